@@ -48,7 +48,7 @@ DOC_FRAGMENTS = [
 ]
 
 # the ones that most often matter at the very end of a description
-DOC_END_FRAGMENTS = ['"', "'", "\\", "*/", '""', '"""', "'''", "\\\\", "/", "*", "`", "<", "&", "{", "\\u", "??/",
+DOC_END_FRAGMENTS = ['"', "'", "\\", '\\"', '\\\\"', "\\'", "*/", '""', '"""', "'''", "\\\\", "/", "*", "`", "<", "&", "{", "\\u", "??/",
                      "}", "@", "$", "${", ">", "%", "\\n", "x" * 90]
 
 # fragments that may stand in an inline literal (``...``): no backtick; no leading/trailing blank
@@ -87,6 +87,8 @@ def fragment_class(fragment: str, form: str) -> str:
         return "comment-close"
     if "\\u" in f:
         return "backslash-u"
+    if '\\"' in f or "\\'" in f:
+        return "backslash-quote"  # looks like an already escaped quote to a careless escaper
     if "\\" in f or "??/" in f:
         return "backslash"
     if '"' in f:
@@ -116,7 +118,8 @@ def fragment_class(fragment: str, form: str) -> str:
     return "other"
 
 
-DANGEROUS_CLASSES = ["double-quote", "single-quote", "comment-close", "backslash", "backslash-u", "markup", "template"]
+DANGEROUS_CLASSES = ["double-quote", "single-quote", "comment-close", "backslash", "backslash-quote", "backslash-u", "markup",
+                     "template"]
 DOC_CLASSES = sorted({fragment_class(f, "text") for f in DOC_FRAGMENTS})
 VALUE_CLASSES = sorted({fragment_class(f, "value") for f in LIT_FRAGMENTS})
 
